@@ -207,7 +207,11 @@ class SensitiveWordAnonymizer(object):
         if not ordered_words:
             # Nothing to look for: a pattern that never matches
             return re.compile(r"(?!)")
-        return re.compile("({})".format("|".join(ordered_words)), re.IGNORECASE)
+        # Words are literal text, not patterns
+        return re.compile(
+            "({})".format("|".join(re.escape(w) for w in ordered_words)),
+            re.IGNORECASE,
+        )
 
     def _get_or_generate_sensitive_word_replacement(self, sensitive_word):
         """Return the replacement string for the given sensitive word.
